@@ -17,6 +17,8 @@ SOLVENT_CATS = ('storage-label', 'factory-unit', 'storage-compare')
 
 
 def run(ctx):
+    from .configtime import refusals_not_swallowed as _no_swallow
+    _no_swallow(ctx, 'C05.R3')
     from .configtime import derived_values as _derived
     _derived(ctx, 'C05.R1', ('Container', 'Unit', 'Substance'))
     from .configtime import recorded_operands_not_mutated as _rec_inplace
